@@ -189,7 +189,7 @@ PROPS = {
     },
     "C20": {
         "lean": ["FsnVerif.Props.C20"],
-        "lean_support": ["FsnVerif.Model.Diff", "FsnVerif.Proofs.DiffLemmas"],
+        "lean_support": ["FsnVerif.Model.Diff", "FsnVerif.Proofs.DiffLemmas", "FsnVerif.Proofs.DiffValid"],
         "stages": [{"name": "diff", "cmd": "scratch:diff", "what": "C20"}],
         "rule": "internal/ztest/diff.go copied verbatim into a scratch package with exported wrappers; matching blocks, opcodes, "
                 "grouped opcodes and the final Diff text compared with the Lean model exhaustively for all pairs of line "
@@ -291,6 +291,10 @@ def differs(pid, impl, model):
     if pid == "C12":
         return (fi.get("W"), fi.get("P")) != (fm.get("W"), fm.get("P"))
     return impl != model
+
+
+# properties that promise that calls return (a hang in a sequential session is their failing input)
+HANG_OWNERS = ("C04", "C05", "C07")
 
 
 def _internal_only(impl, model):
